@@ -75,7 +75,7 @@ example : optPairOk false [67, 79, 85, 78, 84] [48] = false ∧          -- COUN
 theorem scan_missing_empty {α} keyOf typeName allowType (cursor : Int) opts render
     (hc : 0 ≤ cursor) (hl : opts.length % 2 = 0) (hok : allPairsOk allowType opts = true) :
     scanReply ([] : List α) keyOf typeName allowType cursor opts render
-      = .ok (.arr [.int 0, .arr []]) :=
+      = .ok (.arr [.bulk (intBytes 0), .arr []]) :=
   FR.Proofs.scan_missing_empty keyOf typeName allowType cursor opts render hc hl hok
 example : allPairsOk false [[67, 79, 85, 78, 84], [53]] = true := by with_unfolding_all decide
 
